@@ -400,7 +400,9 @@ func (p *Processor) recordWithRoomFor(
 		}
 	}
 
-	if len(cdrBytes)+len(chgDataBytes) > math.MaxUint16 {
+	// leave room for the record sequence number that a partial-record closure adds to the record afterwards
+	const partialRecordHeadroom = 16
+	if len(cdrBytes)+len(chgDataBytes) > math.MaxUint16-partialRecordHeadroom {
 		var newRecord *cdrType.CHFRecord
 		cdrJson, err := json.Marshal(cdr)
 		if err != nil {
